@@ -71,7 +71,7 @@ fn subst(ts: TokenStream, tys: &BTreeMap<String, TokenStream>, lts: &BTreeMap<St
     out
 }
 
-fn expand_alias(al: &ItemType, p: &Path) -> Option<Type> {
+pub fn expand_alias(al: &ItemType, p: &Path) -> Option<Type> {
     use quote::ToTokens;
     let args: Vec<&GenericArgument> = match p.segments.last().map(|s| &s.arguments) {
         Some(PathArguments::AngleBracketed(a)) => a.args.iter().collect(),
